@@ -62,7 +62,8 @@ def layouts(tier):
                     spec.append((d, spec_files.get(d, []), gi.get(d)))
                 out.append((spec, visible, hidden))
     if tier == 'quick':
-        out = out[::4]
+        # every (.gitignore in a/, .gitignore in the root) combination once, the ignored folder name rotating
+        out = [out[(i % len(IGNORED)) * 12 + i] for i in range(12)]
     return out
 
 
@@ -99,6 +100,29 @@ def run(repo, seed, tier):
                                        'input': repr(desc), 'observed': 'reported %r' % sorted(got & hidden)})
         finally:
             shutil.rmtree(root, ignore_errors=True)
+    # several files that map to one dotted module name: each file's definition is reported
+    root = tempfile.mkdtemp(prefix='proj_', dir=os.environ['STANDIN_TMP'])
+    try:
+        files = {'pkg/__init__.py': '', 'pkg/mod.py': 'def dup_fn(): pass\n', 'pkg/mod.pyi': 'def dup_fn(): ...\n',
+                 'tool.py': 'def dup_tool(): pass\n', 'tool/__init__.py': 'def dup_tool(): pass\n',
+                 'one/same.py': 'def dup_same(): pass\n', 'two/same.py': 'def dup_same(): pass\n'}
+        for rel, text in files.items():
+            os.makedirs(os.path.dirname(os.path.join(root, rel)), exist_ok=True)
+            with open(os.path.join(root, rel), 'w') as f:
+                f.write(text)
+        project = jedi.Project(root)
+        for name, want in (('dup_fn', {'pkg/mod.py', 'pkg/mod.pyi'}), ('dup_tool', {'tool.py', 'tool/__init__.py'}),
+                           ('dup_same', {'one/same.py', 'two/same.py'})):
+            for label, fn in (('search', lambda: project.search(name)),
+                              ('complete_search', lambda: project.complete_search(name[:-1]))):
+                evaluations += 1
+                got = {os.path.relpath(str(n.module_path), root) for n in fn() if n.name == name and n.module_path}
+                if want - got:
+                    violations.append({'label': '%s misses definitions outside ignored places' % label,
+                                       'input': 'files %r, name %r' % (sorted(want), name),
+                                       'observed': 'reported only from %r' % sorted(got)})
+    finally:
+        shutil.rmtree(root, ignore_errors=True)
     # Script.search agrees with filtering get_names
     for code in ('def alpha(): pass\nclass Alpha:\n    def alpha(self): pass\nalpha = 1\nbeta = alpha\n',
                  'import os\nx = 1\ndef X(): pass\n'):
